@@ -214,6 +214,10 @@ impl Out {
         self.exhaustive.push(what.to_string());
     }
     pub fn finish(mut self) {
+        self.finish_ref();
+    }
+    /// flush everything and write stats.json (usable from a watchdog thread before exiting)
+    pub fn finish_ref(&mut self) {
         self.cases.flush().unwrap();
         self.imp.flush().unwrap();
         self.oracle.flush().unwrap();
@@ -269,11 +273,16 @@ pub fn guard<T>(f: impl FnOnce() -> T) -> Result<T, String> {
 
 /// Run `f` on another thread with a wall-clock limit: Ok(Some(v)), Ok(None) = hang, Err = panic.
 pub fn guard_timeout<T: Send + 'static>(ms: u64, f: impl FnOnce() -> T + Send + 'static) -> Result<Option<T>, String> {
+    guard_timeout_stack(ms, 64 << 20, f)
+}
+
+/// as `guard_timeout`, with an explicit stack size for the helper thread (cheap for many short calls)
+pub fn guard_timeout_stack<T: Send + 'static>(ms: u64, stack: usize, f: impl FnOnce() -> T + Send + 'static) -> Result<Option<T>, String> {
     static ONCE: std::sync::Once = std::sync::Once::new();
     ONCE.call_once(|| panic::set_hook(Box::new(|_| {})));
     let (tx, rx) = mpsc::channel();
     std::thread::Builder::new()
-        .stack_size(64 << 20)
+        .stack_size(stack)
         .spawn(move || {
             let r = panic::catch_unwind(panic::AssertUnwindSafe(f));
             let _ = tx.send(r.map_err(|e| {
